@@ -63,6 +63,8 @@ def rand_query(h, orc):
         q['td'] = h.chance(50)
     if orc.get('q_spell') and h.chance(orc['q_spell']):
         q['spell'] = h.pick(SPELLS_Q)        # the same path, spelled differently
+        if orc.get('q_lead2') and q['spell'] == 'dblsep' and h.i % 2 == 0:
+            q['spell'] = 'lead2'             # exactly two leading slashes: normpath keeps them (D31)
     return q
 
 
@@ -186,7 +188,7 @@ def rand_root(rnd, orc, nst, crash_pct=20):
 
 def rand_ext(rnd, orc, cache):
     r = rnd.random()
-    paths = orc['qpaths']
+    paths = orc.get('extpaths') or orc['qpaths']
     p = rnd.choice(paths)
     if r < 0.40:
         st = {'op': 'ext', 'do': 'write', 'p': p, 'c': rnd.choice(CONTENTS + ['c7']), 'sz': rnd.choice(SIZES)}
@@ -219,7 +221,7 @@ PROFILES = {
     'general': {},
     'crash': {'p_crash': 0.6, 'builds': [2, 3, 3], 'p_uncaught': 0.5, 'p_clean': 0.05, 'p_base': 0.3, 'base_raise': 25},
     'foreign': {'foreign': True, 'p_crash': 0.3, 'p_clean': 0.3, 'ext': [1, 2, 3, 4]},
-    'probe': {'p_probe': 0.5, 'p_crash': 0.05, 'raise': 25, 'q_spell': 30},
+    'probe': {'p_probe': 0.5, 'p_crash': 0.05, 'raise': 25, 'q_spell': 30, 'q_lead2': True},
     'rebuild': {'link_out': 15, 'ext_links': 25, 'p_same_root': 1.0, 'p_crash': 0.0, 'ext': [0, 0, 0, 1], 'builds': [3, 4], 'p_clean': 0.0,
                 'p_vers': 0.0},
     'versions': {'p_same_root': 0.9, 'p_crash': 0.0, 'ext': [0, 0, 0, 1], 'builds': [3, 4], 'p_clean': 0.0,
@@ -255,6 +257,8 @@ PROFILES = {
     'swap': {'swap': True},
     # the cache file lives in a directory of its own that the build has to create (C12, C01, C02)
     'subcache': {'subcache': True, 'p_clean': 0.35, 'p_crash': 0.25, 'p_double_clean': 0.3},
+    # ... and the build asks about those directories, lists the root, and builds outputs inside them (D30)
+    'subcacheq': {'subcache': True, 'cache_q': True, 'p_clean': 0.2, 'p_crash': 0.2, 'builds': [3, 3, 4], 'p_same_root': 0.85},
     'threads': {'threads': True},
     'straggler': {'straggler': True},
     # C17: calls on builders whose function has ended (sequentially: inside later code of the build and after build returns)
@@ -262,6 +266,7 @@ PROFILES = {
     'threaddup': {'threads': True, 'p_dup': 0.85},
     # threads that rebuild existing outputs (each moves an old output aside), often followed by a rollback
     'threadsrb': {'threads_rb': True},
+    'threadsswap': {'threads_swap': True},
     # the same histories with a yield point at every executed line of the library's small shared data structures
     'threadsrbl': {'threads_rb': True, 'line_trace': ['file_backups.py', 'build_dirs.py', 'cache.py']},
     'threadsfl': {'threads_rb': True, 'line_trace': ['file_backups.py', 'build_dirs.py', 'cache.py'], 'rb_foreign': True},
@@ -521,7 +526,7 @@ def make_keys(seed, profile):
             st['p'] = t
             st['cmp'] = 'HASH'
             if spell:
-                st['spell'] = spell
+                st['spell'] = 'lead2' if spell == 'dblsep' and seed % 2 == 0 else spell
         return st
     steps = []
     mode = rnd.choice(['same', 'next', 'next', 'both'])
@@ -706,6 +711,33 @@ def make_threads_rb(seed, profile):
     if PROFILES[profile].get('line_trace'):
         sc['line_trace'] = list(PROFILES[profile]['line_trace'])
     return sc
+
+
+def make_threads_swap(seed, profile):
+    """A directory of the previous build becomes an output file in one thread while another thread rebuilds an
+    output below it (C02/C09, D32): whichever call loses has to fail in its setup, and after a rollback the old
+    output is back with its old bytes.  Each thread catches the error of the losing call."""
+    rnd = random.Random('threadsswap:%s' % seed)
+    d, leaves = rnd.choice([(['n', 'm'], [['n', 'm', 'f3'], ['n', 'm', 'f4']]),
+                            (['q', 'r'], [['q', 'r', 'f6'], ['q', 'r', 's', 'f5']]),
+                            (['n'], [['n', 'f1'], ['n', 'm', 'f3']])])
+    keep = rnd.sample(leaves, rnd.choice([1, 1, 2]))
+    first = [{'s': 'bf', 'p': t, 'f': 'fW', 'args': [i], 'cmp': rnd.choice(['METADATA', 'HASH']), 'catch': True}
+             for i, t in enumerate(keep)]
+    steps = [{'op': 'build', 'name': 'B', 'vers': {}, 'root': first + [{'s': 'return'}]}]
+    second = [{'s': 'bf', 'p': t, 'f': rnd.choice(['fW2', 'fW2', 'fR']), 'args': [10 + i], 'cmp': rnd.choice(['METADATA', 'HASH']),
+               'catch': True} for i, t in enumerate(keep)]
+    second.insert(rnd.randrange(len(second) + 1),
+                  {'s': 'bf', 'p': d, 'f': rnd.choice(['fW', 'fW2']), 'args': [20], 'cmp': 'HASH', 'catch': True})
+    par = {'s': 'par', 'branches': second, 'preempt': []}
+    # the two calls depend on each other, so only the rollback is judged (step flag `opaque`); the next build makes
+    # the same calls one after another and has to behave as if the failed build had never run
+    steps.append({'op': 'build', 'name': 'B', 'vers': {}, 'root': [par, {'s': 'raise'}], 'opaque': True})
+    steps.append({'op': 'build', 'name': 'B', 'vers': {}, 'root': [dict(b) for b in second] + [{'s': 'return'}]})
+    if rnd.random() < 0.5:
+        steps.append({'op': 'clean', 'name': 'B'})
+    return {'id': '%s-%d' % (profile, seed), 'cache': ['k'], 'universe': [], 'threads': True, 'prog': THREAD_PROGS,
+            'steps': steps, 'combo': True}
 
 
 def make_threads_q(seed, profile):
@@ -1183,6 +1215,8 @@ def make_scenario(seed, profile='general'):
         return make_straggler(seed, profile)
     if P.get('threads_rb'):
         return make_threads_rb(seed, profile)
+    if P.get('threads_swap'):
+        return make_threads_swap(seed, profile)
     if P.get('threads_q'):
         return make_threads_q(seed, profile)
     if P.get('threads'):
@@ -1204,7 +1238,12 @@ def make_scenario(seed, profile='general'):
     if P.get('long'):
         targets = targets + LONGT
         qpaths += [['g', 'h']]
+    if P.get('cache_q'):
+        qpaths += [[], ['c'], ['c', 'c2'], ['c', 'q'], list(cache)] * 2
+        targets = targets + [['c', 't']]
     orc = {
+        # (no foreign regular file where the cache file's directories have to be: such a build cannot start)
+        **({'extpaths': UNIVERSE + [['c', 'q'], ['c', 't'], ['c', 'q']]} if P.get('cache_q') else {}),
         'seed': seed,
         'qpaths': qpaths,
         'targets': targets,
@@ -1215,7 +1254,7 @@ def make_scenario(seed, profile='general'):
         'nocreate2': P.get('nocreate2', 0), 'fixed_mt': P.get('fixed_mt', 0), 'sizes': P.get('sizes', SIZES),
         'falsy_ret': P.get('falsy_ret', 0), 'base_raise': P.get('base_raise', 0), 'catch_base': P.get('catch_base', 0),
         'read_text': True,          # read_text next to declare_read / read_binary (regress files predate this key)
-        'mut_light': P.get('mut_light', 0), 'q_spell': P.get('q_spell', 0), 'link_out': P.get('link_out', 0),
+        'mut_light': P.get('mut_light', 0), 'q_spell': P.get('q_spell', 0), 'q_lead2': P.get('q_lead2', False), 'link_out': P.get('link_out', 0),
         'ext_links': P.get('ext_links', 0),
         'p_probe': int(100 * P.get('p_probe', 0) / 4),
     }
